@@ -35,6 +35,9 @@ var c16Lines = []string{
 	"let s = \"nul\x00byte\rmid\x7f\xffend\u00a0\"; T | where a == s;",
 	"F | where `dir\\` == x; F | count;",
 	"V | where u == \"http://a\"; W | count",
+	"let `x` = 5;",   // a let declared with a quoted name, used by its plain name later
+	"let x = 4 // c", // a comment between the value and the semicolon on the next line
+	";",
 }
 
 // cliModel is the reference for the tool: it sees the script as text, splits it
@@ -213,7 +216,7 @@ func c16Compare(w *run.Worker, input, channel string, got cliRun, outFile *strin
 }
 
 func c16Main(r *run.Runner) {
-	r.Rule = "explicit-state exploration of the command-line tool: every history of <= k input lines over a 19-line alphabet (accepted / rejected / redefined lets, statements spread over lines, two statements per line, lexical errors, comments, blank lines, semicolons inside strings and names), with and without a final newline, is fed to the real pql binary built from /repo; " +
+	r.Rule = "explicit-state exploration of the command-line tool: every history of <= k input lines over a 22-line alphabet (accepted / rejected / redefined lets, statements spread over lines, two statements per line, lexical errors, comments, blank lines, semicolons inside strings and names), with and without a final newline, is fed to the real pql binary built from /repo; " +
 		"standard output, exit status and diagnostics are compared with a model that splits the text with the reference tokenizer and calls the library per statement. Channels: stdin for every history; one file, two files split at every line boundary, -o file and CRLF line ends for every history of <= k-1 lines. Also bulk scripts (20-700 statements), long lines (255-65 000 bytes) and every wide family at every size as a session. Faults: a 70 000-byte line at every position, a directory and a missing file as inputs. " +
 		"states = distinct histories, transitions = lines fed, traces validated = runs of the real binary compared with the model"
 	r.Assume = []string{"the model calls pql.Compile per statement (the library's own correctness is the subject of the other properties)",
